@@ -71,6 +71,9 @@ func hpackInts(run *Run, ss *shardSet) {
 	vals := []uint64{0, 1, 2, 5, 14, 15, 16, 30, 31, 32, 62, 63, 64, 126, 127, 128, 129, 254, 255, 256, 257, 16383, 16384, 1 << 20, 1<<32 - 1, 1 << 32,
 		1<<62 - 1, 1 << 62, 1<<63 - 1, 1 << 63, 1<<63 + 254, 1<<63 + 255, 1<<63 + 256, 1<<64 - 1}
 	for i := 0; i < run.N(60, 600); i++ {
+		if abortRun {
+			return
+		}
 		vals = append(vals, r.U64()>>uint(r.Intn(64)))
 	}
 	for n := byte(1); n <= 8; n++ {
@@ -116,6 +119,9 @@ func hpackInts(run *Run, ss *shardSet) {
 	}
 	// malformed integers: long continuation runs
 	for i := 0; i < run.N(100, 1000); i++ {
+		if abortRun {
+			return
+		}
 		n := byte(1 + r.Intn(8))
 		k := r.Intn(13)
 		in := []byte{0xff}
@@ -159,6 +165,9 @@ func hpackHuffman(run *Run, ss *shardSet) {
 		strs = append(strs, string([]byte{byte(c)}), string([]byte{byte(c), byte(c)}))
 	}
 	for i := 0; i < run.N(150, 3000); i++ {
+		if abortRun {
+			return
+		}
 		strs = append(strs, genString(r, run.N(120, 600)))
 	}
 	for _, s := range strs {
@@ -242,6 +251,9 @@ func coqDecCase(max uint32, ops []dop, obs []dobs, fin tsnap) string {
 func hpackSessions(run *Run, ss *shardSet, which string, n int) {
 	r := run.R
 	for s := 0; s < n; s++ {
+		if abortRun {
+			return
+		}
 		sess := genSession(r, 3+r.Intn(run.N(8, 20)))
 		var enc encoder
 		var menc *mosnEnc
@@ -348,6 +360,9 @@ func hpackReprSessions(run *Run, ss *shardSet, n int, malformed bool) {
 	r := run.R
 	static := mhpack.VerifStaticTable()
 	for s := 0; s < n; s++ {
+		if abortRun {
+			return
+		}
 		allowed := []uint32{4096, 4096, 256, 100, 0, 65536}[r.Intn(6)]
 		g := &genRepr{max: allowed, allowed: allowed}
 		md := newMosnDec(allowed)
@@ -441,6 +456,9 @@ func hpackKnobSessions(run *Run, ss *shardSet, n int) {
 	r := run.R
 	static := mhpack.VerifStaticTable()
 	for s := 0; s < n; s++ {
+		if abortRun {
+			return
+		}
 		g := &genRepr{max: 4096, allowed: 4096}
 		md := newMosnDec(4096)
 		var dops []dop
